@@ -51,6 +51,8 @@ n_(n),
 levels_(std::move(levels))
 {
   check_k(k);
+  // a non-empty sketch may retain no points at all: level 0 must exist nevertheless
+  if (levels_.empty()) levels_.push_back(Level(levels_.get_allocator()));
 }
 
 template<typename T, typename K, typename A>
@@ -65,7 +67,8 @@ uint32_t density_sketch<T, K, A>::get_dim() const {
 
 template<typename T, typename K, typename A>
 bool density_sketch<T, K, A>::is_empty() const {
-  return num_retained_ == 0;
+  // a compaction may drop every retained point, so emptiness must not be derived from num_retained_
+  return n_ == 0;
 }
 
 template<typename T, typename K, typename A>
